@@ -1565,7 +1565,7 @@ Proof.
   - exists p, raw, p'. repeat apply conj; try assumption; congruence.
 Qed.
 
-(* ---- the decidable hypotheses (Grammar.rebuildable_*) imply the ones of the _state theorems ---- *)
+(* ---- the decidable hypotheses (rebuildable_req, rebuildable_resp of Grammar.v) imply those of the _state theorems ---- *)
 Lemma lift_unlift h : hdict_canonical h = true -> h = lift_headers (unlift h).
 Proof.
   destruct h as [d|]; [|reflexivity]. cbn [hdict_canonical unlift]. destruct d as [|e0 d0]; [discriminate|].
